@@ -72,7 +72,7 @@ def check_case(case, acc):
         frames, paths = build(case, work)
         dsets = [make_dataset(df, p, features=["f_key", "f2"], spectrum=spec, write=False)
                  for (df, spec), p in zip(frames, paths)]
-        model = make_model(case.get("est", "linear"), first_only=case["first_only"])
+        model = make_model(case.get("est", "linear"), first_only=case["first_only"], **({"train_fdr": case["train_fdr"]} if "train_fdr" in case else {}))
         try:
             psms, models, scores, descs = mokapot.brew(dsets, model=model, test_fdr=case["fdr"], folds=case["folds"],
                                                        max_workers=1, rng=case.get("seed", 1))
@@ -148,8 +148,11 @@ def check_case(case, acc):
 
 
 def _is_feature(scores, frames):
-    return all(any(np.array_equal(np.asarray(s).ravel(), df[c].values) for c in ("f_key", "f2"))
-               for s, (df, _) in zip(scores, frames))
+    def same(a, b):
+        a = np.asarray(a, dtype=float).ravel()
+        return a.shape == b.shape and np.allclose(a, b, rtol=1e-12, atol=0)
+
+    return all(any(same(s, df[c].values.astype(float)) for c in ("f_key", "f2")) for s, (df, _) in zip(scores, frames))
 
 
 def worker(item):
@@ -178,6 +181,8 @@ def run(ctx):
             for fdr in (0.13, 0.25):
                 cases.append(dict(mults=list(mv), offset=off, folds=3, fdr=fdr, first_only=True, est="both"))
                 cases.append(dict(mults=list(mv), offset=off, folds=3, fdr=fdr, first_only=True, est="offset"))
+            for fdr in (0.26, 0.51):  # evaluation FDR looser than the model's training FDR
+                cases.append(dict(mults=list(mv), offset=off, folds=3, fdr=fdr, first_only=True, train_fdr=0.13))
             for files in (2,):
                 for fdr in FDRS:
                     cases.append(dict(mults=list(mv), offset=off, folds=3, fdr=fdr, first_only=True, files=files))
